@@ -75,6 +75,11 @@ def run_impl(c, memo=None, rule=None, pred_cls=Pred):
         strict.enter_context(np.errstate(all="raise"))
         strict.enter_context(warnings.catch_warnings())
         warnings.simplefilter("error")
+    if c.get("prelude"):
+        from . import prelude
+        from .ev1 import memo_value as _mv
+        prelude.run2d(c, ca, _mv(memo if memo is not None else c["memo"]), NB[c["nb"]],
+                      rule=rule if getattr(rule, "name", "") in ("hash", "probe", "nks", "total") and not getattr(rule, "nested", None) else None)
     try:
       with strict:
         out.res = cpl.evolve2d(ca, timesteps=np_scalar(ts, c.get("npform")) if "T" in c else ts,
